@@ -30,7 +30,7 @@ ASSUMPTIONS = [
 ]
 BOUNDS = {
     "quick": "dispatcher+observers: K3+ (positive durations, <= 3 ops) x 28 creation orders rotated over instances (each instance: 2 orders), every h1, a rotating window of 2-4 complete h2 per h1; 2x2 probe x 28 orders; env: K3+[seed%6::6] x 4 builders x 2 rewards, 2x2 probe",
-    "thorough": "K3 complete x 28 orders (all h2 for <= 2 ops, window of 4-8 otherwise); K4+[seed%4::4] x 2 orders; small probes x 24 orders; env: K3+ complete, K4+[::16], small probes",
+    "thorough": "K3 complete: <= 2 operations x all 28 orders and all h2; 3 operations x 6 orders in rotation with a window of 4-8 h2; K4+[seed%4::4] x 2 orders; small probes x 24 orders; env: K3+ complete, K4+[::16], small probes",
 }
 
 PRE = ("is_ready", "earliest_start_time", "duration", "is_scheduled", "position_in_job")
@@ -58,7 +58,11 @@ def cases(tier, seed):
         out.append(("env", F.P_2X2, 2))
     else:
         for i, s in enumerate(F.K3()):
-            out.append(("observers", s, tuple(range(n_orders)), _env.BUILDERS[i % 4], None if F.n_ops(s) <= 2 else 4))
+            if F.n_ops(s) <= 2:
+                out.append(("observers", s, tuple(range(n_orders)), _env.BUILDERS[i % 4], None))
+            else:
+                idx = tuple((7 * i + k * 5 + seed) % n_orders for k in range(6))
+                out.append(("observers", s, idx, _env.BUILDERS[i % 4], 4))
         for i, s in enumerate(F.sliced(F.K4_pos(), seed % 4, 4)):
             out.append(("observers", s, ((2 * i) % n_orders, (2 * i + 1) % n_orders), _env.BUILDERS[i % 4], 3))
         for s in F.P_SMALL:
